@@ -12,20 +12,20 @@ func FromStr32(s string, frombit, tobit int32) (int32, uint64) {
 	size := tobit - frombit
 	spanSize := tobit - (frombit & ^7)
 
-	blen := int32(len(s)<<3) - frombit
-
-	if blen > size {
-		blen = size
+	// int64: 8*len(s) does not fit in int32 for a string of 256 MiB or more
+	blen := size
+	if rest := int64(len(s))<<3 - int64(frombit); rest < int64(size) {
+		blen = int32(rest)
 	}
 
 	if blen <= 0 {
 		return 0, 0
 	}
 
-	l := int32(len(s))
-	toByte := (tobit + 7) >> 3
-	if l > toByte {
-		l = toByte
+	toByte := int32((int64(tobit) + 7) >> 3)
+	l := toByte
+	if int64(len(s)) < int64(toByte) {
+		l = int32(len(s))
 	}
 
 	i := frombit >> 3
